@@ -79,6 +79,11 @@ pub fn search_c17(seed: u64, budget: usize) -> Option<Found> {
                 let pi = [Point3::new(0.0, 0.0, 0.0), Point3::new(1.0, 2.0, 3.0), Point3::new(2.0, 4.0, 6.0)];
                 let qi = [Point3::new(1.0, 1.0, 1.0), Point3::new(2.0, 3.0, 4.0), Point3::new(3.0, 5.0, 7.0)];
                 if let Some((o, e)) = check_c17(&pi, &qi, 2) { return Some(Found { kind: "c17".into(), case: c17_case(&pi, &qi, 2), observed: o, expected: e }); }
+                // source 1 mm off a line (not collinear), target exactly on a line, all distances within the 5 mm tolerance: the TARGET error
+                let pn = [Point3::new(0.0, 0.0, 0.0), Point3::new(1.0, 0.0, 0.0), Point3::new(2.0, 0.001, 0.0)];
+                let qn = [Point3::new(1.0, 1.0, 1.0), Point3::new(2.0, 1.0, 1.0), Point3::new(3.0, 1.0, 1.0)];
+                if let Some((o, e)) = check_c17(&pn, &qn, 3) { return Some(Found { kind: "c17".into(), case: c17_case(&pn, &qn, 3), observed: o, expected: e }); }
+                if let Some((o, e)) = check_c17(&qn, &pn, 2) { return Some(Found { kind: "c17".into(), case: c17_case(&qn, &pn, 2), observed: o, expected: e }); }
                 continue;
             }
             _ => {}
@@ -91,6 +96,15 @@ pub fn search_c17(seed: u64, budget: usize) -> Option<Found> {
             let fr = Frame { robot: Arc::new(robot), frame: Frame::frame(p[0], p[1], p[2], q[0], q[1], q[2]).ok()? };
             let qs = rand_joints(&mut rng, 1.5);
             let (sols, pose) = fr.forward_transformed(&qs, &qs);
+            // "ordered by closeness to the given previous joints": take the farthest answer as previous and ask again
+            if sols.len() >= 2 {
+                let far = sols[sols.len() - 1];
+                let (again, _) = fr.forward_transformed(&qs, &far);
+                let d = |a: &Joints, b: &Joints| -> f64 { (0..6).map(|i| (a[i] - b[i]).abs()).sum() };
+                if !again.is_empty() && d(&again[0], &far) > 1e-6 && again.iter().any(|x| d(x, &far) < 1e-9) {
+                    return Some(Found { kind: "c17".into(), case: c17_case(&p, &q, 0), observed: format!("forward_transformed(qs, previous = {:?}) returns {:?} first", far, again[0]), expected: "the answer closest to previous first".into() });
+                }
+            }
             let want = fr.frame * indep_fk(&base_params(k), &qs);
             let (dt, da) = pose_err(&want, &pose);
             if dt > 1e-9 * (1.0 + s) || da > 1e-9 { return Some(Found { kind: "c17".into(), case: c17_case(&p, &q, 0), observed: format!("forward_transformed pose off by {:e} m / {:e} rad", dt, da), expected: "frame * forward(qs)".into() }); }
@@ -107,18 +121,20 @@ pub fn replay_c17(case: &str) -> Option<Found> {
 }
 
 // ---------------------------------------------------------------- C15
-pub fn check_c15(k: usize, q: &Joints, eps: f64, tw: &[f64; 6]) -> Option<(String, String)> {
-    let robot = OPWKinematics::new(base_params(k));
+pub fn check_c15(k: usize, q: &Joints, eps: f64, tw: &[f64; 6], tool: &[f64; 3]) -> Option<(String, String)> {
+    // bare robot or robot behind a tool with a lateral offset (the tool centre point off the J6 axis)
+    let tl = Isometry3::translation(tool[0], tool[1], tool[2]);
+    let robot = rs_opw_kinematics::tool::Tool { robot: Arc::new(OPWKinematics::new(base_params(k))), tool: tl };
     let jac = Jacobian::new(&robot, q, eps);
     // recover J column by column: torques_from_vector(e_i) = J^T e_i = row i of J
     let mut j = [[0.0f64; 6]; 6];
     for i in 0..6 { let mut e = Vector6::zeros(); e[i] = 1.0; let row = jac.torques_from_vector(&e); for c in 0..6 { j[i][c] = row[c]; } }
     // columns against the forward difference of the independent model
     let p = base_params(k);
-    let f0 = indep_fk(&p, q);
+    let f0 = indep_fk(&p, q) * tl;
     for c in 0..6 {
         let mut qq = *q; qq[c] += eps;
-        let f1 = indep_fk(&p, &qq);
+        let f1 = indep_fk(&p, &qq) * tl;
         let dp = (f1.translation.vector - f0.translation.vector) / eps;
         let dr = (f1.rotation * f0.rotation.inverse()).scaled_axis() / eps;
         for r in 0..3 {
@@ -153,18 +169,19 @@ pub fn search_c15(seed: u64, budget: usize) -> Option<Found> {
         let k = rng.below(4);
         let mut q = rand_joints(&mut rng, 2.0);
         if q[4].sin().abs() < 0.2 { q[4] = 0.9; }
-        let eps = [1e-7, 1e-6, 1e-5][rng.below(3)];
+        let eps = [1e-7, 1e-6, 1e-5, 1e-3, 1e-2][rng.below(5)];
+        let tool = if round % 2 == 0 { [0.0; 3] } else { [rng.range(-0.3, 0.3), rng.range(-0.3, 0.3), rng.range(0.0, 0.3)] };
         let mut tw = [0.0; 6];
         for i in 0..6 { tw[i] = rng.range(-1.0, 1.0); }
         if round % 3 == 0 { tw[3] = 0.0; tw[4] = 0.0; }
-        if let Some((o, e)) = check_c15(k, &q, eps, &tw) {
-            return Some(Found { kind: "c15".into(), case: format!("{{\"robot\": {}, \"q\": {}, \"eps\": {:?}, \"twist\": {}}}", k, json::nums(&q), eps, json::nums(&tw)), observed: o, expected: e });
+        if let Some((o, e)) = check_c15(k, &q, eps, &tw, &tool) {
+            return Some(Found { kind: "c15".into(), case: format!("{{\"robot\": {}, \"q\": {}, \"eps\": {:?}, \"twist\": {}, \"tool\": {}}}", k, json::nums(&q), eps, json::nums(&tw), json::nums(&tool)), observed: o, expected: e });
         }
     }
     None
 }
 pub fn replay_c15(case: &str) -> Option<Found> {
-    let q = json::get_nums(case, "q"); let t = json::get_nums(case, "twist");
-    check_c15(json::get_num(case, "robot")? as usize, &[q[0], q[1], q[2], q[3], q[4], q[5]], json::get_num(case, "eps")?, &[t[0], t[1], t[2], t[3], t[4], t[5]])
+    let q = json::get_nums(case, "q"); let t = json::get_nums(case, "twist"); let tl = json::get_nums(case, "tool"); let tl = if tl.len() == 3 { [tl[0], tl[1], tl[2]] } else { [0.0; 3] };
+    check_c15(json::get_num(case, "robot")? as usize, &[q[0], q[1], q[2], q[3], q[4], q[5]], json::get_num(case, "eps")?, &[t[0], t[1], t[2], t[3], t[4], t[5]], &tl)
         .map(|(o, e)| Found { kind: "c15".into(), case: case.into(), observed: o, expected: e })
 }
